@@ -2,9 +2,10 @@
 from __future__ import annotations
 
 import ast
+import re
 import typing as T
 
-from ..core import Undecided, norm, kwarg
+from ..core import Undecided, norm, kwarg, short
 from ..report import RuleCtx
 from .. import tables
 from ..tables import Atom, canon
@@ -56,7 +57,7 @@ def string(ctx: RuleCtx, mod: T.Any) -> None:
     qn = 'UserStringOption.validate_value'
     fn, rows, tab = _table(mod, qn)
     t = Atom('isinstance', ('ARG1', ('str',)))
-    S.compare(ctx, mod, qn, fn, tab, {}, lambda w: type_of(w, 'ARG1'), lambda ty: ('return', 'ARG1') if ty == 'str' else ('raise', EXC), outcome, [t],
+    _compare(ctx, mod, qn, fn, tab, {}, lambda w: type_of(w, 'ARG1'), lambda ty: ('return', 'ARG1') if ty == 'str' else ('raise', EXC), outcome, [t],
               what='reference (a str is accepted unchanged, anything else rejected)')
 
 
@@ -87,7 +88,7 @@ def boolean(ctx: RuleCtx, mod: T.Any) -> None:
             return ('return', 'False')
         return ('raise', EXC)
     extra = [ci_t, ci_f, Atom('isinstance', ('ARG1', ('bool',))), Atom('isinstance', ('ARG1', ('str',)))]
-    S.compare(ctx, mod, qn, fn, tab, sem, view, ref, outcome, extra,
+    _compare(ctx, mod, qn, fn, tab, sem, view, ref, outcome, extra,
               what="reference (bool unchanged; 'true'/'false' in any case converted; every other value rejected)")
 
 
@@ -154,7 +155,7 @@ def integer(ctx: RuleCtx, mod: T.Any) -> None:
                 return ('raise', EXC)
             return ('return', val)
         extra = [min_none, max_none, lo_min, hi_min, lo_max, hi_max, isstr] + [Atom('isinstance', (s, (t,))) for s in {'ARG1', v} for t in ('bool', 'int')]
-        S.compare(ctx, mod, part.name, fn, part, sem, view, ref, outcome, extra,
+        _compare(ctx, mod, part.name, fn, part, sem, view, ref, outcome, extra,
                   what='reference (str converted by toint; bool and non-int rejected; below minimum / above maximum rejected; boundaries accepted)')
     _toint(ctx, mod, 'UserIntegerOption.toint', 'int(ARG1)', 'decimal')
 
@@ -184,7 +185,7 @@ def umask(ctx: RuleCtx, mod: T.Any) -> None:
     qn = 'UserUmaskOption.validate_value'
     fn, rows, tab = _table(mod, qn)
     pres = A("ARG1 == 'preserve'")
-    S.compare(ctx, mod, qn, fn, tab, {pres: 'preserve'}, lambda w: w[pres],
+    _compare(ctx, mod, qn, fn, tab, {pres: 'preserve'}, lambda w: w[pres],
               lambda p: ('return', "'preserve'") if p else ('return', P('OctalInt(super().validate_value(ARG1))')), outcome, [pres],
               what="reference ('preserve' accepted, everything else through the integer validator)")
     r = ctx.repo.find_method(mod, _base(ctx, mod, 'UserUmaskOption'), 'validate_value')
@@ -208,7 +209,7 @@ def combo(ctx: RuleCtx, mod: T.Any) -> None:
     qn = 'UserComboOption.validate_value'
     fn, rows, tab = _table(mod, qn)
     inc = A('ARG1 in self.choices')
-    S.compare(ctx, mod, qn, fn, tab, {inc: 'in choices'}, lambda w: w[inc], lambda i: ('return', 'ARG1') if i else ('raise', EXC), outcome, [inc],
+    _compare(ctx, mod, qn, fn, tab, {inc: 'in choices'}, lambda w: w[inc], lambda i: ('return', 'ARG1') if i else ('raise', EXC), outcome, [inc],
               what='reference (a value outside choices is rejected, a member is accepted unchanged)')
     ch, init = _field_default(ctx, mod, 'UserFeatureOption', 'choices')
     ctx.require(sorted(ch) == ['auto', 'disabled', 'enabled'] and init is False, 'UserFeatureOption: choices are enabled/disabled/auto, fixed', mod, 'UserFeatureOption', 'choices',
@@ -263,7 +264,7 @@ def string_array(ctx: RuleCtx, mod: T.Any) -> None:
         if has and outside:
             return ('raise', EXC)
         return ('return', L)
-    S.compare(ctx, mod, qn, fn, tab, sem, view, ref, outcome, [A('self.choices'), bad[0], Atom('isinstance', (elem, ('str',)))],
+    _compare(ctx, mod, qn, fn, tab, sem, view, ref, outcome, [A('self.choices'), bad[0], Atom('isinstance', (elem, ('str',)))],
               what='reference (listified; a non-str element rejected; with choices set an element outside them rejected; duplicates only deprecated)')
     fn2 = mod.func('UserStringArrayOption.listify')
     rows2 = S.Sym(fn2, handlers=True).rows()
@@ -273,6 +274,36 @@ def string_array(ctx: RuleCtx, mod: T.Any) -> None:
     ok = normal[0].outcome == ('return', P('listify_array_value(ARG1, self.split_args)'))
     ctx.require(ok, 'UserStringArrayOption.listify: listify_array_value(value, split_args)', mod, 'UserStringArrayOption.listify', normal[0].value,
                 f'listify calls {normal[0].outcome[1]}; reference: listify_array_value(value, self.split_args)', fn2)
+
+
+
+CONSTRAINT_ATTRS = {'choices', 'min_value', 'max_value', 'all_stds', 'deprecated_stds', 'value', 'default'}
+
+
+def value_independent(a: Atom) -> bool:
+    """An atom outside the vocabulary that reads only fields of the option object other than its constraints (no call, no
+    parameter, no loop element, no local): its truth is fixed per option object while the validated value ranges over
+    everything, so it cannot make "a value outside the constraint reaches this row" infeasible.  A disagreeing row that
+    tests only such extra atoms is a violation (guard weakened / narrowed by an unrelated condition), not undecided."""
+    for part in a.args:
+        if not isinstance(part, str):
+            return False
+        try:
+            e = ast.parse(part, mode='eval').body
+        except SyntaxError:
+            return False
+        for n in ast.walk(e):
+            if isinstance(n, (ast.Call, ast.Subscript, ast.Lambda, ast.ListComp, ast.SetComp, ast.DictComp, ast.GeneratorExp, ast.NamedExpr)):
+                return False
+            if isinstance(n, ast.Name) and n.id != 'self':
+                return False
+            if isinstance(n, ast.Attribute) and n.attr in CONSTRAINT_ATTRS:
+                return False
+    return True
+
+
+def _compare(*args: T.Any, **kw: T.Any) -> bool:
+    return S.compare(*args, independent=value_independent, **kw)
 
 
 def is_named_call(e: T.Any, name: str) -> bool:
@@ -290,6 +321,51 @@ def std(ctx: RuleCtx, mod: T.Any) -> None:
 
     def mentions(a: Atom, what: str) -> bool:
         return what in repr(a)
+    # necessary condition per accepting path, whatever else the path tests: a candidate is returned only after it was found
+    # in self.choices, a replacement only after it was found in self.deprecated_stds.  An extra or a substituted test can
+    # only narrow a path, it cannot establish membership in the compiler's choices (unless it hides a call, or reads choices
+    # in a form not understood: then the table comparison below stays undecided).
+    transparent = {'get', 'join', 'listify_array_value', 'isinstance', 'len', 'str'}
+
+    def opaque(a: Atom) -> bool:
+        txt = repr(a)
+        if 'choices' in txt and not (a.kind == 'in' and a.args[1] == 'self.choices' and re.fullmatch(r'ELEM\d+', a.args[0])):
+            return True      # choices read in a form this rule does not know
+        for part in a.args:
+            for t in (part if isinstance(part, tuple) else (part,)):
+                try:
+                    e = ast.parse(t, mode='eval').body if isinstance(t, str) else None
+                except SyntaxError:
+                    return True
+                for n in ast.walk(e) if e is not None else ():
+                    if isinstance(n, ast.Call):
+                        f = n.func
+                        if (f.attr if isinstance(f, ast.Attribute) else getattr(f, 'id', '?')) not in transparent:
+                            return True
+        return False
+    accepted = 0
+    for r in rows:
+        if r.outcome[0] != 'return' or r.value is None:
+            continue
+        v = norm(r.value)
+        if re.fullmatch(r'ELEM\d+', v):
+            just = r.conds.get(Atom('in', (v, 'self.choices'))) is True
+            need = f'{v} in self.choices'
+        else:
+            m = re.fullmatch(r'self\.deprecated_stds(?:\.get\((ELEM\d+)\)|\[(ELEM\d+)\])', v)
+            if not m:
+                continue      # some other shape: the table comparison decides (or not)
+            el = m.group(1) or m.group(2)
+            just = r.conds.get(Atom('is', (f'self.deprecated_stds.get({el})', 'None'))) is False or r.conds.get(Atom('in', (el, 'self.deprecated_stds'))) is True
+            need = f'{el} has a replacement in self.deprecated_stds'
+        accepted += 1
+        if just or any(opaque(a) for a in r.conds):
+            continue
+        node = r.path.events[-1].node if r.path is not None and r.path.events and r.path.events[-1].node is not None else fn
+        ctx.violation(mod, qn, f'accepts {v} without: {need}', f'a path returns {v} as the validated value although it never established `{need}` '
+                      f'(path: {short(repr(r), 300)}); a standard the compiler does not list among its choices is accepted', node)
+        return
+    ctx.floor('accepting paths of UserStdOption.validate_value', accepted, 2)
     unknown = [a for a in atoms if a.kind == 'truth' and _bad_comprehension(a.args[0], C, 'self.all_stds')]
     if not unknown and not any(mentions(a, 'all_stds') for a in atoms):
         unknown = [Atom('truth', ('<some candidate is not in self.all_stds>',))]   # nothing reads all_stds: the outcome cannot depend on it
@@ -319,7 +395,7 @@ def std(ctx: RuleCtx, mod: T.Any) -> None:
         if not nr:
             return ('return', norepl[0].args[0])
         return ('raise', EXC)
-    S.compare(ctx, mod, qn, fn, tab, sem, view, ref, outcome, [unknown[0], sup[0], norepl[0], elem[0]],
+    _compare(ctx, mod, qn, fn, tab, sem, view, ref, outcome, [unknown[0], sup[0], norepl[0], elem[0]],
               what='reference (non-str or unknown standard rejected; first supported candidate; else first deprecated replacement; else rejected)')
 
 
